@@ -31,6 +31,8 @@ from typing import Any, Callable, Dict, Iterable, List, Optional
 
 VERIF = os.path.dirname(os.path.dirname(os.path.abspath(__file__)))
 NSHARDS = int(os.environ.get("VERIF_SHARDS", "16"))
+# development aid for loaded machines: stretches the wall-clock safety nets (never the case counts)
+BUDGET_MULT = float(os.environ.get("VERIF_BUDGET_MULT", "1") or 1)
 
 
 # --------------------------------------------------------------------------- outcome
@@ -222,7 +224,7 @@ def _worker(check_id: str, tier: str, seed: int, shard: int, nshards: int, conn)
         check = load_check(check_id)
         findings = load_known_findings(check.id)
         frag = Fragment(check, findings)
-        t_end = time.time() + check.budget_s(tier)
+        t_end = time.time() + check.budget_s(tier) * BUDGET_MULT
         for i, case in enumerate(check.pinned(tier)):
             if i % nshards != shard:
                 continue
@@ -427,7 +429,7 @@ def main(argv=None):
     # Watchdog: a worker that has not reported long after its own budget is stuck (seen under heavy load:
     # a process-shared lock inherited over fork); it is terminated and its shard counted as lost, which makes
     # the run inconclusive for that shard but never a violation.
-    t_give_up = time.time() + check.budget_s(tier) * 3 + 300
+    t_give_up = time.time() + check.budget_s(tier) * BUDGET_MULT * 3 + 300
     lost = 0
     for p, conn in procs:
         try:
